@@ -297,6 +297,9 @@ fn build_context_evaluator(scope: &Scope, context: &Context) -> Result<Evaluator
   }
   scope.pop();
   Ok(Box::new(move |scope: &Scope| {
+    // the entries are visible to the entries that follow them and to nobody else:
+    // they live in a context of their own, like during building, not in the context of the caller
+    scope.push(FeelContext::default());
     let mut evaluated_context = FeelContext::default();
     for (opt_name, evaluator) in &entry_evaluators {
       match opt_name {
@@ -306,10 +309,13 @@ fn build_context_evaluator(scope: &Scope, context: &Context) -> Result<Evaluator
           evaluated_context.set_entry(name, value);
         }
         None => {
-          return evaluator(scope);
+          let value = evaluator(scope);
+          scope.pop();
+          return value;
         }
       }
     }
+    scope.pop();
     Value::Context(evaluated_context)
   }))
 }
